@@ -9,7 +9,7 @@ from util import call, quiet
 REQUIRED_THEOREMS = ['Usid.C07.rows_exact', 'Usid.C07.eager_fixup_identity', 'Usid.C07.rejections_2d',
                      'Usid.C07.two_lists_refused', 'Usid.C07.slice2D_elements', 'Usid.C07.posSpecSlices_selected',
                      'Usid.C07.sliceND_elements']
-RULE = ('generator datasets (any storage order) x slicing dictionaries with, per dimension, absent / each int / '
+RULE = ('[also: numpy integers as scalar selectors, repeated indices inside lists, slice_dict=None, a list of pairs instead of a dictionary, 0-2 toggle_sorting calls before slicing, main dtypes f8/f4/i4/c16/compound; success flag and lazy/eager container type observed] generator datasets (any storage order) x slicing dictionaries with, per dimension, absent / each int / '
         'contiguous and strided slices (negative bounds and steps) / non-empty index subsets as list, tuple or ndarray, '
         'ndim_form and lazy in {F,T}, file-order and sorted wrapper; >= 15 %% of the 2-D results forced square and '
         '>= 10 %% single row/column; a malformed stream (negative, out-of-range, unknown label, float/str selectors, '
@@ -48,7 +48,7 @@ def generate(seed, tier):
     for i in range(n_cases):
         rng = derived_rng(seed, 'C07', i)
         while True:
-            ds = gen.gen_dataset(rng, max_dims=3, max_size=4)
+            ds = gen.gen_dataset(rng, max_dims=3, max_size=4, dtypes=('f8', 'f8', 'f4', 'i4', 'c16', 'compound'))
             n, m = gen.n_points(ds['pos']), gen.n_points(ds['spec'])
             if n * m <= 500 and all(len(s['sizes']) <= gen.n_points(s) for s in (ds['pos'], ds['spec'])):
                 break
@@ -96,13 +96,28 @@ def generate(seed, tier):
             if x['k'] not in seen:
                 seen.add(x['k'])
                 sd2.append(x)
-        cases.append({'ds': ds, 'sd': sd2, 'sort': rng.random() < 0.3, 'lazy': rng.random() < 0.4})
+        # numpy integers as scalar selectors; an index repeated inside a list
+        npk = rng.choice([None, None, 'int64', 'int32', 'int16'])
+        for x in sd2:
+            if x['v'].get('t') == 'int' and npk and x['v']['i'] >= 0:
+                x['v'] = dict(x['v'], **{'as': npk})
+            elif x['v'].get('t') == 'list' and x['v']['l'] and rng.random() < 0.12:
+                l = list(x['v']['l'])
+                l.insert(rng.randrange(len(l) + 1), rng.choice(l))
+                x['v'] = dict(x['v'], l=l)
+        case = {'ds': ds, 'sd': sd2, 'sort': rng.random() < 0.3, 'lazy': rng.random() < 0.4,
+                'toggles': rng.choice([0, 0, 0, 1, 2])}
+        if i % 40 == 39:
+            case['sd'], case['whole'] = [], True                 # slice_dict=None: everything
+        elif i % 40 == 38:
+            case['nondict'] = True                               # a list of pairs instead of a dictionary
+        cases.append(case)
     return cases
 
 
 def _py_sel(v):
     if v['t'] == 'int':
-        return int(v['i'])
+        return {'int64': np.int64, 'int32': np.int32, 'int16': np.int16}.get(v.get('as'), int)(v['i'])
     if v['t'] == 'slice':
         return slice(v['a'], v['b'], v['s'])
     if v['t'] == 'list':
@@ -122,18 +137,25 @@ def run_impl(inp, work):
     with h5py.File(path, 'w') as f:
         gen.write_usid(f.create_group('G'), ds)
     sd = {x['k']: _py_sel(x['v']) for x in inp['sd']}
+    if inp.get('whole'):
+        sd = None
+    elif inp.get('nondict'):
+        sd = list(sd.items())
     out = {}
     with h5py.File(path, 'r') as f:
         u = USIDataset(f['G/main'], sort_dims=inp['sort'])
+        for _ in range(inp.get('toggles', 0)):
+            u.toggle_sorting()
         out['labels'] = [str(x) for x in u.n_dim_labels]
         for key, kw in (('nd', dict(ndim_form=True, lazy=False)), ('nd_lazy', dict(ndim_form=True, lazy=True)),
                         ('2d', dict(ndim_form=False, lazy=False)), ('2d_lazy', dict(ndim_form=False, lazy=True))):
-            r = call(u.slice, dict(sd), **kw)
+            r = call(u.slice, (dict(sd) if isinstance(sd, dict) else sd), **kw)
             if r[0] == 'err':
                 out[key] = {'err': r[1], 'cls': r[2]}
             else:
-                out[key] = dict(_tok(r[1][0]), success=(r[1][1] is True))
-        r = call(u._get_pos_spec_slices, dict(sd))
+                out[key] = dict(_tok(r[1][0]), success=(r[1][1] is True),
+                                container=('dask' if hasattr(r[1][0], 'compute') else type(r[1][0]).__name__))
+        r = call(u._get_pos_spec_slices, (dict(sd) if isinstance(sd, dict) else sd))
         out['rows'] = {'rows': [int(x) for x in r[1][0]], 'cols': [int(x) for x in r[1][1]]} if r[0] == 'ok' else {'err': r[1]}
         out['nd_full'] = _tok(u.get_n_dim_form())
     return out
@@ -163,6 +185,17 @@ def oracle(inp, obs):
     nd = np.array(obs['nd_full']['flat']).reshape(obs['nd_full']['shape'])
     n, m = gen.n_points(ds['pos']), gen.n_points(ds['spec'])
     main = np.arange(n * m).reshape(n, m)
+    if inp.get('nondict'):
+        bad = 'not-a-dictionary'
+    for key in ('nd', 'nd_lazy', '2d', '2d_lazy'):
+        o = obs[key]
+        if 'err' not in o:
+            if o.get('success') is not True:
+                fails.append('success-flag: %s returned data with success != True' % key)
+            is_dask = o.get('container') == 'dask'
+            if 'container' in o and is_dask != key.endswith('lazy'):
+                fails.append('container: %s returned a %s (lazy results are dask arrays, eager ones are not)'
+                             % (key, o.get('container')))
     if bad:
         for key in ('nd', 'nd_lazy', '2d', '2d_lazy'):
             if 'err' not in obs[key]:
@@ -205,7 +238,8 @@ def oracle(inp, obs):
             fails.append('nd-raises: %s path raised %s for a valid request %s' % (key, o['cls'], inp['sd']))
         elif o['shape'] != list(want.shape) or o['flat'] != want.ravel().tolist():
             fails.append('nd-indexing: %s result differs from ordinary indexing of the N-D form along the named axes' % key)
-    if 'err' not in obs['nd'] and 'err' not in obs['nd_lazy'] and obs['nd'] != obs['nd_lazy']:
+    if 'err' not in obs['nd'] and 'err' not in obs['nd_lazy'] and \
+            (obs['nd']['shape'], obs['nd']['flat']) != (obs['nd_lazy']['shape'], obs['nd_lazy']['flat']):
         fails.append('nd-lazy-eager: lazy and eager N-D slices differ')
     # ---------------- 2-D path
     neg = any(v['t'] == 'int' and v['i'] < 0 for v in sd.values()) or \
@@ -262,7 +296,8 @@ def _base(inp):
 
 def model_requests(inp):
     b = _base(inp)
-    return [dict(b, op='slice.nd', sort=inp['sort']), dict(b, op='slice.2d', lazy=False), dict(b, op='slice.2d', lazy=True)]
+    eff_sort = bool(inp['sort']) != (inp.get('toggles', 0) % 2 == 1)
+    return [dict(b, op='slice.nd', sort=eff_sort), dict(b, op='slice.2d', lazy=False), dict(b, op='slice.2d', lazy=True)]
 
 
 def _e(x):
@@ -275,6 +310,8 @@ def _e(x):
 
 def model_obs(inp, resp):
     nd, d2, d2l = resp
+    if inp.get('nondict'):       # the model's slicing dictionary is a dictionary by type: a list of pairs is refused
+        return {'nd': {'err': True}, '2d': {'err': True}, '2d_lazy': {'err': True}, 'rows': {'err': True}}
     return {'nd': _e(nd), '2d': _e(d2['data']), '2d_lazy': _e(d2l['data']), 'rows': _e(d2['rows'])}
 
 
